@@ -289,7 +289,7 @@ def replay(pid, path):
     if eng == "kcompose":
         from .main import Result
         res = Result()
-        engine_kcompose.run(pid, "quick", data.get("seed", 0), res, only=[dict(prog=rp["prog"], ins=rp["ins"], outs=rp["outs"])])
+        engine_kcompose.run(pid, "quick", data.get("seed", 0), res, only=[dict(variant="setup", case=rp["case"])] if rp.get("variant") == "setup" else [dict(prog=rp["prog"], ins=rp["ins"], outs=rp["outs"])])
         bad = [h for h in res.hits if h["prop"] == pid]
         if bad:
             print("VIOLATION property=%s replay=%s" % (pid, path))
@@ -370,6 +370,11 @@ REGISTRY["C19"] = dict(engines=[engine_kcompose.run], rule=("K-compose cases: ra
                        assumptions=VALUE_ASSUME)
 
 REGISTRY["C15"]["engines"] = [engine_khist.run, engine_kcompose.run]
+# the composed DAG's compound-priority table (C06 / C07 for DAGs derived by compose)
+REGISTRY["C07"]["engines"] = list(REGISTRY["C07"]["engines"]) + [engine_kcompose.run]
+REGISTRY["C07"]["rule"] += " || compose() derivations: compound-priority table of the composed DAG vs Priority.v (K-compose)"
+REGISTRY["C06"]["engines"] = list(REGISTRY["C06"]["engines"]) + [engine_kcompose.run]
+REGISTRY["C06"]["rule"] += " || compose() derivations: compound-priority table of the composed DAG vs Priority.v (K-compose)"
 REGISTRY["C15"]["rule"] = HIST_RULE + " || compose() derivations: the original DAG's value and node table before and after composing and running the composed DAG (K-compose)"
 
 from . import engine_kthread  # noqa: E402
